@@ -10,6 +10,7 @@ From FT Require Proofs.EditInverse.
 From FT Require Proofs.EditBook Proofs.EditSessions Proofs.EditSessionsFull Proofs.EditSessionsAll.
 From FT Require Model.Toggle Proofs.EditInit.
 From FT Require Proofs.CoreTieBundle.
+From FT Require Model.EditCtor Proofs.EditCtor.
 Import ListNotations.
 
 Module G := FT.Gen.History_gen.
@@ -168,6 +169,24 @@ Proof. exact EditInit.construct_session_timeline. Qed.
 Theorem C02_core_is_generated : FT.Proofs.CoreTieBundle.core_tie_statement.
 Proof. exact FT.Proofs.CoreTieBundle.core_tie. Qed.
 
+(* (9) ... and from the constructor as the code runs it on a graph that arrives with managed features of its own
+   (Model/EditCtor.v: construct_any - the id lookups filled by a scan, every core feature found on the first node
+   activated at face value, every other one computed): if the detected features are valid on all nodes
+   (EditCtor.supplied_ok) the timeline law holds for every session over the whole interface from that state. *)
+Theorem C02_sessions_from_any_construction : forall r0 posk ctrk clin extra ops,
+  EditInit.raw_ok r0 posk ctrk clin ->
+  EditCtor.supplied_ok r0 ->
+  (forall k, In k extra -> In k (Toggle.available r0)) ->
+  EditSessionsAll.pre_along_all (FT.Model.EditCtor.construct_any r0 ctrk clin extra) ops ->
+  forall dS,
+  let st0 := FT.Model.EditCtor.construct_any r0 ctrk clin extra in
+  let t := EditSessionsFull.tl_run_full st0 {| A.tl := [st0]; A.c := 0 |} ops in
+  (A.c state t < length (A.tl state t))%nat /\
+  EditInverse.obs_eq (run st0 ops) (nth (A.c state t) (A.tl state t) dS) /\
+  Forall WF (A.tl state t) /\
+  (exists ext, A.tl state t = st0 :: ext).
+Proof. exact EditCtor.construct_any_session_timeline. Qed.
+
 Example C02_nonvacuous :
   let inv := fun (s : Z) (a : Z) => ((s - a)%Z, (- a)%Z) in
   let ops := [A.HEdit Z Z 5%Z 5%Z; A.HEdit Z Z 2%Z 7%Z; A.HUndo Z Z; A.HUndo Z Z; A.HEdit Z Z 1%Z 1%Z;
@@ -188,3 +207,4 @@ Print Assumptions C02_sessions_timeline.
 Print Assumptions C02_sessions_undo_redo.
 Print Assumptions C02_sessions_from_construction.
 Print Assumptions C02_core_is_generated.
+Print Assumptions C02_sessions_from_any_construction.
